@@ -465,6 +465,8 @@ class Engine:
                         for o in rv[4]:
                             if o[0] in ("c", "m") and not o[1][1] and mir.is_ptr_ty(locs[o[1][0]]):
                                 src |= al.get(o[1][0]) or {(o[1][0], ())}
+                            elif o[0] in ("c", "m") and o[1][0] in holders:
+                                src |= al.get(o[1][0]) or set()
                         if src:
                             holders.add(d)
                             cur = al.setdefault(d, set())
@@ -473,6 +475,16 @@ class Engine:
                                 changed = True
                         continue
                     if not mir.is_ptr_ty(locs[d]):
+                        # a pointer-holding value moved / copied into another local keeps what it points to
+                        if rv[0] == "use" and rv[1][0] in ("c", "m") and not rv[1][1][1] and rv[1][1][0] in holders:
+                            src = al.get(rv[1][1][0]) or set()
+                            if d not in holders:
+                                holders.add(d)
+                                changed = True
+                            cur = al.setdefault(d, set())
+                            if not src <= cur:
+                                cur |= src
+                                changed = True
                         continue
                     src = None
                     if rv[0] in ("ref", "rawptr"):
@@ -481,6 +493,9 @@ class Engine:
                         pl = rv[1][1]
                         if not pl[1]:
                             src = al.get(pl[0]) or ({(pl[0], ())} if mir.is_ptr_ty(locs[pl[0]]) else None)
+                        elif pl[0] in holders and "*" not in pl[1]:
+                            # a pointer taken out of a pointer-holding value (iterator item, tuple of refs)
+                            src = set(al.get(pl[0]) or ()) or resolve(pl)
                         else:
                             src = resolve(pl)
                     elif rv[0] == "cfd":
@@ -505,7 +520,13 @@ class Engine:
                     src = set()
                     for a in t["args"]:
                         if a[0] in ("c", "m") and mir.is_ptr_ty(locs[a[1][0]]) and not a[1][1]:
-                            src |= al.get(a[1][0]) or {(a[1][0], ())}
+                            tg = al.get(a[1][0]) or {(a[1][0], ())}
+                            src |= tg
+                            for (x, p2) in list(tg):
+                                if not p2 and x in holders:      # `&mut iterator`: what the iterator points to
+                                    src |= al.get(x) or set()
+                        elif a[0] in ("c", "m") and not a[1][1] and a[1][0] in holders:
+                            src |= al.get(a[1][0]) or set()      # iterator adaptors taking a pointer-holder by value
                     if src:
                         cur = al.setdefault(d, set())
                         if not src <= cur:
